@@ -158,8 +158,6 @@ def check_tokens(modes, buf, out):
         prev_end = end
     else:
         fail("eof", "no EndOfFile token")
-    if toks[-1][0] != "EndOfFile":
-        pass
     return fails
 
 
